@@ -151,13 +151,20 @@ pub fn block_on_lock() {
         Some(n) => { b.cur = n; bt.1.notify_all(); while b.cur != m { b = bt.1.wait(b).unwrap(); } }
     }
 }
+static PREEMPTIONS: Mutex<usize> = Mutex::new(0);
 pub fn yield_now() {
     if is_cooperative() { return; }
     let bt = baton(); let m = me();
     let mut b = bt.0.lock().unwrap();
-    match pick(&b) {
+    // context bounding (VSYM_PARAM_preemptions): same rule as the symbolic scheduler
+    let r = runnable(&b);
+    if let Ok(v) = std::env::var("VSYM_PARAM_preemptions") {
+        let bound: usize = v.parse().unwrap();
+        if r.len() > 1 && r.contains(&m) && *PREEMPTIONS.lock().unwrap() >= bound { return; }
+    }
+    match pick_from(&r) {
         None => { println!("DEADLOCK"); std::process::exit(4); }
-        Some(n) => { if n != m { b.cur = n; bt.1.notify_all(); while b.cur != m { b = bt.1.wait(b).unwrap(); } } }
+        Some(n) => { if n != m { if r.contains(&m) { *PREEMPTIONS.lock().unwrap() += 1; } b.cur = n; bt.1.notify_all(); while b.cur != m { b = bt.1.wait(b).unwrap(); } } }
     }
 }
 pub fn join<T>(h: Handle<T>) -> T {
